@@ -159,7 +159,20 @@ pub fn gen_scalar(r: &mut Rng, cfg: &DocCfg) -> Value<'static> {
     }
 }
 
+/// small documents at the edges of the layout: empty keys with payload-free values, empty
+/// strings alone in nested arrays, empty containers before later siblings, minimal sizes
+pub const EDGE_DOCS: &[&str] = &[
+    r#"{"":null}"#, r#"{"":true,"a":false}"#, r#"[1,{"":null}]"#, r#"{"k":{"":{"":true}}}"#, r#"{"":"","a":""}"#,
+    r#"[[""]]"#, r#"{"a":[""]}"#, r#"["x",[""]]"#, r#"[1,[2,[""]]]"#, r#"[[],{}]"#, r#"[{}]"#, r#"[[]]"#, r#"[{},[]]"#,
+    r#"{"a":{},"b":1}"#, r#"{"a":[],"b":1}"#, r#"[1,[],2,3]"#, r#"{"a":{"x":null},"c":7}"#, r#"{"a":[null],"b":[[]]}"#,
+    r#"[null]"#, r#"[true,[5,6]]"#, r#"{"a":null,"b":{"c":1}}"#, r#"[[1],[1.0]]"#, r#"[1,1.0,1e0,100,1e2]"#,
+    r#"{"a":[1,2]}"#, r#"{"a":1}"#, r#"[[1,2],[3]]"#, r#"[[3],[1,2]]"#, r#"{"ÄB":1,"äb":2}"#, r#"{"É":1}"#, r#"[-0.0,0,0.0]"#,
+];
+
 pub fn gen_value(r: &mut Rng, cfg: &DocCfg, depth: u32) -> Value<'static> {
+    if depth == 0 && r.chance(1, 14) {
+        if let Ok(v) = jsonb::parse_value(r.pick(EDGE_DOCS).as_bytes()) { return v; }
+    }
     let container_odds = if depth == 0 { 7 } else if depth >= cfg.max_depth { 0 } else { 3 };
     if r.below(10) >= container_odds {
         return gen_scalar(r, cfg);
